@@ -12,9 +12,6 @@ pub mod shims {
     pub mod scursor {
 //@include frag/scursor_shim.tpl
     }
-    pub mod crc {
-//@include frag/crc_shim.tpl
-    }
 }
 pub mod common {
     pub mod bits {
@@ -23,25 +20,24 @@ pub mod common {
     pub mod function {
 //@include frag/common_function.tpl
     }
-    pub mod phys {
-//@include frag/phys_shim.tpl
+    pub mod traits {
+//@include frag/common_traits.tpl
     }
-    pub mod buffer {
-//@include frag/common_buffer.tpl
+    pub mod parse {
+//@include frag/common_parse.tpl
     }
     pub mod frame {
-//@include frag/common_frame_types.tpl
-//@include frag/common_frame_reader.tpl
+        use vstd::prelude::*;
+        use crate::types::UnitId;
+//@item rodbus/src/common/frame.rs | FrameDestination
     }
 }
-pub mod tcp {
-    pub mod frame {
-//@include frag/tcp_frame.tpl
+pub mod server {
+    pub mod types {
+//@include frag/server_types.tpl
     }
-}
-pub mod serial {
-    pub mod frame {
-//@include frag/serial_frame.tpl
+    pub mod request {
+//@include frag/server_request_parse.tpl
     }
 }
 } // verus!
